@@ -5,8 +5,17 @@ import FitProps.C09
 /-!
 # C11 — Destination failures surface as errors; incomplete output is never a valid file
 
-Fault model: `Writer.Faults` — the k-th operation on the destination fails after taking at most j bytes, for ANY set of (k, j).
-PROPERTY THEOREMS (audited by ./check): see `checklib/props/C11.py`.
+Fault model: `Writer.Faults` — the k-th operation on the destination (Write, WriteAt, Seek — also the ones the buffered
+writer issues when it flushes) fails after taking at most j bytes, for ANY set of (k, j). A crash "the first k operations
+and j bytes of the next write took effect" is the final state of the run under the schedule "operation k takes j bytes and
+fails": the encoder stops issuing operations at the first failure. (That link is checked, not proved: every sweep of
+family enc-faults replays the healthy run's operation sequence up to (k, j) and compares it with the faulted run — on the
+real encoder and on the model.)
+
+PROPERTY THEOREMS (audited by ./check): C11_write_error_surfaces, C11_error_surfaces_batch, C11_success_means_no_fault,
+C11_error_surfaces_stream, C11_call_error_surfaces (from any state, any validator, call by call), C11_consts (obligation on
+the regenerated profile version), C11_prefix_never_valid, C11_prefix_never_valid_stream, C11_stale_header_witness (the
+finding F13 / KF-C11-1, repaired in /repo f65e050; the theorems speak about both variants through `StreamCfg`).
 The model's encoder has no panic outcome (its result type is writer state × success); a panic of the implementation
 under a fault is a disagreement of the `enc-faults` family.
 -/
@@ -113,8 +122,8 @@ theorem C11_consts :
 /-- INCOMPLETE OUTPUT IS NEVER A VALID FILE, batch. FIT values with default (zero) headers (`ZeroHdr`: 14-byte header, caller's
 data size 0, records below 16 MiB, placeholder CRC's high byte non-zero — `C11_consts`), any writer kind, any buffer
 size, a destination that is empty or holds an accepted stream, and ANY fault schedule `F` — in particular the
-schedule "operation k takes j bytes and fails", after which the encoder issues no further operation, so that the final
-content is exactly the crash state "the first k operations, and j bytes of the next write, took effect": if the
+schedule "operation k takes j bytes and fails", whose final content is the crash state "the first k operations, and j
+bytes of the next write, took effect" (see the header of this file): if the
 integrity check accepts the destination content as a complete stream, then the content is `d₀` followed by the first
 `m` COMPLETE sequences, for some `m` — a boundary between completed sequences, never anything in between. -/
 theorem C11_prefix_never_valid (F : Faults) (o : Opts) (kind : Kind) (size : Nat) (d₀ : Dest) (n₀ : Nat) (fs : List FitIn)
@@ -125,6 +134,22 @@ theorem C11_prefix_never_valid (F : Faults) (o : Opts) (kind : Kind) (size : Nat
       (encodeChainW F o (Fit.C09.encOn o kind size d₀ n₀) fs).1.w.d.content = d₀.content ++ encodeChain o (fitsOf (fs.take m)) := by
   obtain ⟨_, _, h3, _, _, _⟩ := chain_spec F o fs _ (Fit.C09.encOn_ready o kind size d₀ n₀ hend hown)
   exact chainReach_acc o kind d₀.content fs _ hz hbase h3 hacc
+
+/-- a destination that DIES during its operation number `k`, having taken `j` bytes of it: everything before succeeded,
+nothing after it has any effect (writes take 0 bytes, seeks fail) — whatever the encoder still tries. Its final content
+is, by the destination model alone, the crash state "the first `k` operations and `j` bytes of the next took effect". -/
+def deadAt (k j : Nat) : Faults := fun i => if i < k then none else if i = k then some j else some 0
+
+/-- CRASH STATES: for every crash point (k, j) — any operation, any number of bytes of it — the content the dead
+destination is left with is accepted by the integrity check only at a boundary between completed sequences. -/
+theorem C11_crash_never_valid (k j : Nat) (o : Opts) (kind : Kind) (size : Nat) (d₀ : Dest) (n₀ : Nat) (fs : List FitIn)
+    (hend : d₀.pos = d₀.content.length) (hown : kind = .at → n₀ = d₀.content.length)
+    (hbase : d₀.content = [] ∨ Acc d₀.content) (hz : ∀ f ∈ fs, ZeroHdr o f)
+    (hacc : Acc (encodeChainW (deadAt k j) o (Fit.C09.encOn o kind size d₀ n₀) fs).1.w.d.content) :
+    ∃ m, m ≤ fs.length ∧
+      (encodeChainW (deadAt k j) o (Fit.C09.encOn o kind size d₀ n₀) fs).1.w.d.content =
+        d₀.content ++ encodeChain o (fitsOf (fs.take m)) :=
+  C11_prefix_never_valid (deadAt k j) o kind size d₀ n₀ fs hend hown hbase hz hacc
 
 /-- INCOMPLETE OUTPUT IS NEVER A VALID FILE, stream: the same for sequences written message by message through the stream
 encoder — for the repaired code (`clearsHeader`), and for the code as it was pinned as long as only ONE sequence is
